@@ -652,6 +652,70 @@ def diff_family():
                 fail("Diff.tree_diff(tree_primal(t), tree_tangent(t)) does not rebuild t's tags", tree=tags)
 
 
+def pytree_family():
+    """C21 (Pytree part): Const / Closure / tree_const on the real classes, flatten/unflatten, jit and vmap round trips of the
+    repository's Pytree dataclasses, static fields absent from the leaves"""
+    from genjax import Pytree
+    from genjax._src.core.pytree import Closure, Const
+    tu = jax.tree_util
+    c = Pytree.const(5)
+    if Pytree.const(c) is not c or Pytree.const(7).val != 7:
+        fail("Pytree.const: does not keep an existing Const / wrap a concrete value")
+    if tu.tree_leaves(c):
+        fail("Const.val is a traced leaf", leaves=tu.tree_leaves(c))
+    x = jnp.array(2.0)
+    t = Pytree.tree_const((c, 3, {"a": "tag"}))
+    if t[0] is not c or not isinstance(t[1], Const) or t[1].val != 3 or not isinstance(t[2]["a"], Const):
+        fail("Pytree.tree_const: wraps a Const again or leaves a concrete leaf unwrapped", got=t)
+    if Pytree.tree_const_unwrap(t) != (5, 3, {"a": "tag"}):
+        fail("Pytree.tree_const_unwrap does not invert tree_const", got=Pytree.tree_const_unwrap(t))
+    inside = jax.jit(lambda v: isinstance(Pytree.tree_const((v, 3))[0], Const))(x)
+    if bool(inside):
+        fail("Pytree.tree_const wraps a traced value in a Const")
+    try:
+        jax.jit(lambda v: Pytree.const(v).val)(x)
+        fail("Pytree.const accepts a traced value")
+    except AssertionError:
+        pass
+    if Const.unwrap(c) != 5 or Const.unwrap(9) != 9:
+        fail("Const.unwrap")
+
+    def f(a, b, y, scale=1.0):
+        return (a - b) * y * scale
+    clo = Pytree.partial(x, jnp.array(3.0))(f)
+    if not isinstance(clo, Closure) or len(tu.tree_leaves(clo)) != 2:
+        fail("Closure: the dynamic arguments are not exactly the leaves", leaves=tu.tree_leaves(clo))
+    if not close(clo(jnp.array(10.0), scale=2.0), (2.0 - 3.0) * 10.0 * 2.0):
+        fail("Closure.__call__ is not fn(*dyn_args, *args, **kwargs)", got=clo(jnp.array(10.0), scale=2.0))
+    leaves, td = tu.tree_flatten(clo)
+    back = tu.tree_unflatten(td, leaves)
+    if back.fn is not f or not close(back(jnp.array(1.0)), -1.0):
+        fail("Closure does not round-trip through flatten/unflatten")
+    if not close(jax.jit(lambda cl, y: cl(y))(clo, jnp.array(4.0)), -4.0):
+        fail("Closure does not survive jit")
+    if not close(jax.vmap(lambda cl, y: cl(y), in_axes=(None, 0))(clo, jnp.arange(3.0)), -jnp.arange(3.0)):
+        fail("Closure does not survive vmap")
+    if jax.jit(lambda cc: cc.unwrap() + 1)(c) != 6:
+        fail("Const does not survive jit as a static value")
+    # a sample of the repository's dataclasses: static fields are absent from the leaves, round trip rebuilds them
+    tr = inner.simulate(KEY, (0.5,))
+    vm = inner.vmap(in_axes=(0,))
+    vtr = vm.simulate(KEY, (jnp.arange(3.0),))
+    sc = genjax.scan(n=3)(gen(lambda cc, xx: (normal(cc, 1.0) @ "z", xx)))
+    for name, obj in (("StaticTrace", tr), ("Vmap", vm), ("VmapTrace", vtr), ("Scan", sc),
+                      ("Mask", Mask(x, jnp.array(True))), ("Diff", Diff(x, NoChange)), ("Selection", S.at["x", "y"] | ~S.at["z"]),
+                      ("ChoiceMap", C.d({"x": x, "y": {"z": x}}) | C.entry(x, "w").mask(jnp.array(True)))):
+        leaves, td = tu.tree_flatten(obj)
+        if not all(hasattr(l, "dtype") or isinstance(l, (float, bool)) for l in leaves):
+            fail(f"{name}: a non-array (static) value is among the traced leaves", leaves=[type(l).__name__ for l in leaves])
+        back = tu.tree_unflatten(td, leaves)
+        if tu.tree_structure(back) != td or type(back) is not type(obj):
+            fail(f"{name}: flatten/unflatten does not round-trip")
+        j = jax.jit(lambda o: o)(obj)
+        if tu.tree_structure(j) != td or not all(close(a, b) for a, b in zip(tu.tree_leaves(j), leaves)):
+            fail(f"{name}: does not round-trip through jit")
+
+
 def mask_algebra_family():
     """C19: truth tables of Mask | ^ ~ build flatten unmask for concrete, array and jit-traced flags"""
     import itertools
@@ -724,7 +788,8 @@ def selection_family():
 
 
 FAMILIES = [
-    (("C19.Mask.", "Mask._or_idx"), mask_algebra_family), (("C18.",), selection_family), ((".Diff.",), diff_family), (("C31.",), time_travel_family), (("C17.",), choice_map_family), (("C26.",), smc_family),
+    (("C19.Mask.", "Mask._or_idx"), mask_algebra_family), (("C18.",), selection_family), ((".Diff.",), diff_family),
+    (("C21.",), pytree_family), (("C31.",), time_travel_family), (("C17.",), choice_map_family), (("C26.",), smc_family),
     (("MaskCombinator", "MaskTrace"), mask_family), (("Distribution", "ExactDensity"), distribution_family),
     (("Dimap",), dimap_family), (("Switch",), switch_family), (("Vmap", "repeat"), vmap_family),
     (("Scan", "iterate", "accumulate", "reduce", "masked_iterate"), scan_family),
